@@ -128,4 +128,17 @@ def rulesFor (o : Opts) : List Rule :=
 
 def firstViolated (o : Opts) : Option Rule := (rulesFor o).find? (violated o)
 
+/-- rules that OPTIONS.md states (the others exist as error messages only) -/
+def Rule.documented : Rule → Bool
+  | .recursionLimit | .constArea | .arenaArea | .cacheArea | .arenaTooLarge | .networkFile => false
+  | _ => true
+
+/-- Judge of an *observed* ending (`none` = accepted, `some k` = diagnosis of kind `k`) against the rules, more liberal
+    than the model: an acceptance is consistent when no documented rule is violated, a diagnosis when some applicable rule
+    of that kind is violated (whichever the code tested first). Used by the failing-input search of harness/c13_cli.py. -/
+def consistent (o : Opts) (observed : Option Kind) : Bool :=
+  match observed with
+  | none => (rulesFor o).all (fun r => !(Rule.documented r && violated o r))
+  | some k => (rulesFor o).any (fun r => violated o r && r.kind == k)
+
 end VelaVerif.CliOptions.Spec
